@@ -75,6 +75,9 @@ def diverges(H: np.ndarray, s: np.ndarray) -> bool:
     return any(par.values())
 
 
+UNEXPECTED_TIMEOUTS = [0]
+
+
 class Budget:
     def __init__(self, n_div):
         self.div = n_div
@@ -87,7 +90,13 @@ def add_case(s: Stream, hname: str, H: np.ndarray, syn: np.ndarray, desc, tag, b
         if budget.div <= 0:
             return
         budget.div -= 1
-    r = run_support(H, syn, full=full and not div, timeout=0.6 if div else 20.0)
+    # an implementation that no longer terminates on well-formed inputs would otherwise cost the full
+    # watchdog on every case: after a few unexpected time-outs the limit drops (the stream is broken anyway,
+    # the oracle looks for the failing input)
+    r = run_support(H, syn, full=full and not div,
+                    timeout=0.6 if div else (20.0 if UNEXPECTED_TIMEOUTS[0] < 4 else 1.0))
+    if r['result'] == 'TIMEOUT' and not div:
+        UNEXPECTED_TIMEOUTS[0] += 1
     if r['result'] == 'TIMEOUT':
         sched = ';'.join(r['sched'].split(';')[:400])
         s.add(f'uf.decode ${hname} {vec(syn)} {sched}', 'TIMEOUT', desc, nontrivial=True,
